@@ -157,6 +157,9 @@ def run(spec, R):
             try:
                 r1 = g.apply_binary_rules(X, Y)
                 s1 = ser(r1)
+                if isinstance(r1, list) and rng.random() < 0.3:
+                    r1.append(None)                     # what a caller does with the list it got must not matter
+                    del r1[0]
                 s2 = ser(g.apply_binary_rules(X, Y))
             except Exception as e:
                 R.case((lang, x, y), True)
@@ -253,6 +256,13 @@ def unary_shard(spec, R, rng, G):
             if lang == 'ja':
                 ks = [k for k in ks if refcat.atoms(k)[0][2] is not None] or [refcat.ref_parse('S[mod=adn,form=base,fin=f]')]
             table = {k: [rng.choice(inv[lang]) for _ in range(rng.randint(1, 4))] for k in ks}
+            if lang == 'en' and rng.random() < 0.4:
+                # NP / PP keys whose targets mix type-raising and other categories in any order
+                tr = [refcat.ref_parse(b) for a, b in gens.unary_pairs('en') if a in ('NP', 'PP')]
+                k1 = refcat.ref_parse(rng.choice(('NP', 'PP')))
+                tg = rng.sample(tr, rng.randint(1, 3)) + [rng.choice(inv[lang]) for _ in range(rng.randint(1, 2))]
+                rng.shuffle(tg)
+                table[k1] = tg
             if rng.random() < 0.3:
                 k0 = rng.choice(ks)                            # a category may be listed among its own targets
                 table[k0].insert(rng.randrange(len(table[k0]) + 1), k0)
